@@ -75,7 +75,7 @@ Theorem C02_headers_balanced_partial : forall fuel wd main bs, Forall FragH.in_f
   let s := snd (compile (S fuel) (R "xhtml") 0 wd main bs) in
   panicked s = None /\
   Tok.run (flat (wout s)) (Tok.Txt, []) = (Tok.Txt, []) /\ In (curfile s, flat (wout s)) (files s).
-Proof. exact FragH.C02_headers_balanced. Qed.
+Proof. intros fuel wd main bs H. destruct (FragH.C02_headers_balanced fuel wd main bs H) as (A & B & C & _). exact (conj A (conj B C)). Qed.
 Print Assumptions C02_headers_balanced_partial.
 (* the per-handler steps of the open-element invariant that the lifting uses, for any state (also inside lists etc.) *)
 Theorem C02_text_keeps_invariant : forall s, Inv.Inv s -> Inv.markup_ok (mtags s) -> process s = true -> asis s = false ->
